@@ -2,5 +2,5 @@ SPECIFICATION Spec
 CONSTANTS
   MaxMembers = 4
   MaxLen = 8
-INVARIANTS RuleSane EmitCase
+INVARIANTS RuleSane HugeSane EmitCase
 CHECK_DEADLOCK FALSE
